@@ -539,3 +539,30 @@ func LemmaParsedWF(a any) {
 		LemmaParsedWF(e.Right)
 	}
 }
+
+// ---- operator names (C12) ---------------------------------------------------------------------------
+
+// LemmaOperatorNames: the two name tables are total on the declared operators and
+// mutually inverse, so an operator survives encoding and decoding.
+//
+//@ func LemmaOperatorNames
+//@   lemma
+//@   props C12
+//@   requires And <= op && op <= List
+//@   ensures  NameOf(op) != "" && OpNamed(NameOf(op)) == op
+
+func LemmaOperatorNames(op Operator) {}
+
+// LemmaOperatorNamesDistinct: distinct operators have distinct names.
+//
+//@ func LemmaOperatorNamesDistinct
+//@   lemma
+//@   props C12
+//@   requires And <= a && a <= List && And <= b && b <= List && a != b
+//@   ensures  NameOf(a) != NameOf(b)
+
+func LemmaOperatorNamesDistinct(a, b Operator) {}
+
+// NameOf / OpNamed: the JSON operator name tables.
+func NameOf(op Operator) string { return toString[op] }
+func OpNamed(s string) Operator { return fromString[s] }
